@@ -7,6 +7,7 @@ A *case* is a plain dict (picklable):
           by a per-case suffix so that many cases can live in one generated module.
     call  an expression (may use __S__) evaluated inside the `std.concurrent` body; its value is handed
           to the pyeval probe.  The very same text is evaluated by CPython for the reference.
+    solo  (optional) True when the case needs a generated module of its own.
     binding  True when every TypeError CPython can raise for this case is an argument-binding error by
           construction (family `sig`): then cohdl must reject as well.
 """
@@ -22,8 +23,12 @@ from verif.gen.c10_probe import probe
 '''
 
 
-def case(key, defs, call, binding=False):
-    return {"key": key, "defs": defs, "call": call, "binding": binding}
+def case(key, defs, call, binding=False, solo=False):
+    """solo: the definitions rebind a builtin name at module level, so the case must not share a module with others"""
+    c = {"key": key, "defs": defs, "call": call, "binding": binding}
+    if solo:
+        c["solo"] = True
+    return c
 
 
 def subst(text, idx):
